@@ -7,6 +7,8 @@ From Coq Require Import List NArith ZArith.
 From Goit Require Import Bytes Sha1 Obj Tree Index Commit Config World Repo BytesFacts ObjFacts TreeFacts CommitFacts.
 From Goit Require Import BranchFacts ExactFacts CommitCmdFacts.
 From Goit Require Import Bridge.
+From Goit Require Import Inv.
+From Goit Require HeadFacts.
 Import ListNotations.
 
 Definition holds (st : store) (ds : list bytes) : Prop :=
@@ -98,3 +100,17 @@ Print Assumptions C02_commit_spec.
 Print Assumptions C02_commit_records_identity_and_message.
 Print Assumptions C02_commit_effect_order.
 Print Assumptions C02_source_patterns_are_the_models.
+
+(* C02_commit_spec on every reachable repository: neither "the repository is initialised" nor "the
+   current branch has a valid name" is a hypothesis any more, both follow from reachability *)
+Theorem C02_commit_spec_reachable : forall e msg w c root subs cm,
+  Reachable w -> ctx_of w = Some c -> gate_open w c ->
+  Forall valid_entry (idx_of w) -> write_tree_top (idx_of w) = Some (root, subs) ->
+  (forall d, In d (subs ++ [root]) -> (lenN d < 2 ^ 63)%N) ->
+  (lenN (commit_data e c msg w root) < 2 ^ 63)%N ->
+  parse_commit (commit_data e c msg w root) = Some cm -> ~ In c_nl (commit_sign e c) ->
+  let w' := after_commit e c msg w root subs in
+  step (ACmd e (CCommit msg)) w = (w', OOk [], do_commit_trace e c msg w root subs) /\
+  commit_post e c msg w root cm w'.
+Proof. exact HeadFacts.commit_step_spec'. Qed.
+Print Assumptions C02_commit_spec_reachable.
